@@ -77,6 +77,7 @@ type frame struct {
 	// labelled states (root only)
 	lockSt      *State
 	entrySt     *State
+	assertHit   map[*SpecExpr]bool
 	wOverride   string
 	curHeader   *ssa.BasicBlock
 	inFacts     int
@@ -1330,6 +1331,9 @@ func (f *frame) execBlock(b *ssa.BasicBlock, st *State, rc *runCtx) {
 			f.rets = append(f.rets, retEdge{st.cond, st.clone(), vs, rp})
 			return
 		case *ssa.Panic:
+			if f.panicsIff(i, st) {
+				return
+			}
 			if f.ct != nil && f.ct.PanicAssumed {
 				f.e.assumed["documented panic of "+f.ct.Rel+" assumed unreachable under its requires (trusted numeric link)"] = true
 				return
@@ -1337,7 +1341,94 @@ func (f *frame) execBlock(b *ssa.BasicBlock, st *State, rc *runCtx) {
 			f.safety(i, "panic", st, "false")
 			return
 		default:
+			f.assertsAt(ins, st)
 			f.exec(ins, st)
+		}
+	}
+}
+
+// panicsIff: an explicit panic of a root function with a panics_iff clause must happen only when the clause holds.
+func (f *frame) panicsIff(at ssa.Instruction, st *State) bool {
+	if f != f.root || f.ct == nil || f.ct.PanicsIff == nil {
+		return false
+	}
+	env := f.specEnv(f.entrySt)
+	env.pkg = f.ct.Pkg
+	t, err := env.evalBool(f.ct.PanicsIff)
+	if err != nil {
+		f.e.note("panics_iff eval: " + err.Error())
+		return false
+	}
+	an, pos := f.anchor(at)
+	f.e.addOb("panics-only-if", f.ct.PanicsIff.Text+"|"+an, f.ct.PanicsIff.Tags, pos, st.cond, t)
+	return true
+}
+
+// assertsAt checks the contract's ghost assertions attached to calls and sends of a source line.
+func (f *frame) assertsAt(ins ssa.Instruction, st *State) {
+	if f.ct == nil || len(f.ct.AssertAt) == 0 || f != f.root {
+		return
+	}
+	switch ins.(type) {
+	case *ssa.Call, *ssa.Send, *ssa.Select:
+	default:
+		return
+	}
+	line := f.W().srcLine(f.posOf(ins))
+	for _, a := range f.ct.AssertAt {
+		if !strings.Contains(line, a.Sub) {
+			continue
+		}
+		switch c := ins.(type) {
+		case *ssa.Call:
+			name := ""
+			if c.Call.IsInvoke() {
+				name = c.Call.Method.Name()
+			} else if sc := c.Call.StaticCallee(); sc != nil {
+				name = sc.Name()
+			}
+			if name != a.What {
+				continue
+			}
+		default:
+			if a.What != "send" {
+				continue
+			}
+		}
+		env := f.specEnv(st)
+		f.localsAt(ins.Block(), env)
+		// values defined earlier in the same block
+		for _, j := range ins.Block().Instrs {
+			if j == ins {
+				break
+			}
+			if dr, ok := j.(*ssa.DebugRef); ok && !dr.IsAddr {
+				if id, ok := dr.Expr.(*ast.Ident); ok {
+					if t, ok := f.vals[dr.X]; ok {
+						env.vars[id.Name] = t
+					}
+				}
+			}
+		}
+		env.pkg = f.ct.Pkg
+		if c, ok := ins.(*ssa.Call); ok {
+			// the actual arguments of the call are available as arg0, arg1, ... (receiver first)
+			for k, a := range c.Call.Args {
+				env.vars[fmt.Sprintf("arg%d", k)] = f.val(a, st)
+			}
+		}
+		if sd, ok := ins.(*ssa.Send); ok {
+			env.vars["sent"] = f.val(sd.X, st)
+		}
+		t, err := env.evalBool(a.Spec)
+		if err != nil {
+			f.e.note("assert_at eval: " + err.Error())
+			continue
+		}
+		an, pos := f.anchor(ins)
+		f.e.addOb("assert", a.Spec.Text+"|"+an, a.Spec.Tags, pos, st.cond, t)
+		if f.e.probe == 0 {
+			f.assertHit[a.Spec] = true
 		}
 	}
 }
